@@ -49,7 +49,7 @@ func runC11(w *World, r *Report) {
 func c11GlobalDirection(w *World, r *Report) {
 	cg := w.Fn("pkg/chart/v2/util", "coalesceGlobals")
 	cd := w.Fn("pkg/chart/v2/util", "coalesceDeps")
-	ctfk := w.Fn("pkg/chart/v2/util", "coalesceTablesFullKey")
+	ctfk := overlayFn(w)
 	if cg == nil || cd == nil || ctfk == nil {
 		r.Unk("C11/GLOBAL-DIRECTION", "anchor", "-", "coalesceGlobals / coalesceDeps / coalesceTablesFullKey not found")
 		return
